@@ -63,6 +63,10 @@ def add_edge(sut, classes, src, dst, placement, serial):
     E = sut  # namespace
     owner, target = classes[src], classes[dst]
     name = f"e{serial}"
+    # mapping keys are arbitrary strings: every other edge sits under a key with dots in it (a walk that
+    # re-reads keys as dotted paths loses those)
+    dotted = serial % 2 == 1
+    key = f"v1.{name}.x" if dotted else name
 
     def prop(element):
         owner.properties[name] = E.Property(element)
@@ -88,7 +92,7 @@ def add_edge(sut, classes, src, dst, placement, serial):
     elif placement == "patternProperties":
         current = owner.patternProperties
         current = dict(current) if isinstance(current, dict) else {}
-        current[f"^{name}"] = target
+        current[f"^plugin\\.{name}\\..*$" if dotted else f"^{name}"] = target
         owner.patternProperties = current
     elif placement == "additionalProperties":
         if isinstance(owner.additionalProperties, bool):
@@ -103,20 +107,20 @@ def add_edge(sut, classes, src, dst, placement, serial):
     elif placement == "dependencies":
         current = owner.dependencies
         current = dict(current) if isinstance(current, dict) else {}
-        current[name] = target
+        current[key] = target
         owner.dependencies = current
     elif placement == "deep_array_anyof_not":
         prop(E.Array(E.AnyOf(E.Not(target), E.String())))
     elif placement == "el_properties":
-        prop(E.Element(properties={"x": E.Property(target)}))
+        prop(E.Element(properties={("billing.address" if dotted else "x"): E.Property(target)}))
     elif placement == "el_patternProperties":
-        prop(E.Element(patternProperties={"^a": target}))
+        prop(E.Element(patternProperties={("^x-.*\\.y$" if dotted else "^a"): target}))
     elif placement == "el_additionalProperties":
         prop(E.Element(additionalProperties=target))
     elif placement == "el_propertyNames":
         prop(E.Element(propertyNames=target))
     elif placement == "el_dependencies":
-        prop(E.Element(dependencies={"k": target, "j": ["k"]}))
+        prop(E.Element(dependencies={("k.l" if dotted else "k"): target, "j": ["k"]}))
     elif placement == "el_items":
         prop(E.Element(items=[target, E.Integer()]))
     elif placement == "el_contains":
